@@ -7,7 +7,6 @@ import (
 	"go/token"
 	"math/rand"
 	"reflect"
-	"strings"
 	"time"
 
 	"github.com/dave/dst"
@@ -249,10 +248,9 @@ func c06Share(c *Ctx, idx int, build func() *dst.File, r *rand.Rand) []obj {
 		var err error
 		msg := guard(func() { _, _, err = decorator.RestoreFile(f) })
 		switch {
-		case strings.Contains(msg, "duplicate node"):
-			outcome = "panic-duplicate"
 		case msg != "":
-			outcome = "other-" + msg
+			// "rejected at restore time with a panic": the property does not fix the panic's text
+			outcome = "panic"
 		case err != nil:
 			outcome = "error-" + err.Error()
 		}
@@ -589,10 +587,8 @@ func c06SharePairs(key string, build func() *dst.File, mode string, r *rand.Rand
 			outcome := "ok"
 			msg, err := restore(f)
 			switch {
-			case strings.Contains(msg, "duplicate node"):
-				outcome = "panic-duplicate"
 			case msg != "":
-				outcome = "other-" + msg
+				outcome = "panic"
 			case err != nil:
 				outcome = "error-" + err.Error()
 			}
